@@ -505,6 +505,71 @@ func ruleHeadsUpdate(c *eng.Ctx) {
 		}
 	}
 	c.Floor(rule, n, 3)
+	// every link of the block is examined: a commit that joins two branches has two parents that can
+	// both be current heads (or one a head, one a known non-head), so the loop over AllLinks neither
+	// breaks nor returns success before its last element
+	var loop *ast.RangeStmt
+	ast.Inspect(fi.Decl.Body, func(m ast.Node) bool {
+		if rs, ok := m.(*ast.RangeStmt); ok && loop == nil {
+			if call, ok := ast.Unparen(rs.X).(*ast.CallExpr); ok && strings.HasSuffix(eng.CalleeName(info, call), "(*Block).AllLinks") {
+				loop = rs
+			}
+		}
+		return true
+	})
+	if loop == nil {
+		c.Unknown(rule, "updateHeads:every-link-examined", fi.Decl.Pos(), "anchor-unresolved: range over block.AllLinks()")
+	} else {
+		var early ast.Node
+		var walk func(nd ast.Node, breakable bool)
+		walk = func(nd ast.Node, breakable bool) {
+			ast.Inspect(nd, func(m ast.Node) bool {
+				switch x := m.(type) {
+				case *ast.FuncLit:
+					return false
+				case *ast.ForStmt:
+					walk(x.Body, false)
+					return false
+				case *ast.RangeStmt:
+					if x != loop {
+						walk(x.Body, false)
+						return false
+					}
+				case *ast.SwitchStmt:
+					walk(x.Body, false)
+					return false
+				case *ast.TypeSwitchStmt:
+					walk(x.Body, false)
+					return false
+				case *ast.SelectStmt:
+					walk(x.Body, false)
+					return false
+				case *ast.BranchStmt:
+					if x.Tok == token.BREAK && (breakable || x.Label != nil) {
+						early = x
+					}
+					if x.Tok == token.GOTO {
+						early = x
+					}
+				case *ast.ReturnStmt:
+					// leaving with an error is fine; leaving with success skips the remaining links
+					if len(x.Results) == 1 {
+						if tv, ok := info.Types[x.Results[0]]; ok && tv.IsNil() {
+							early = x
+						}
+					}
+				}
+				return true
+			})
+		}
+		walk(loop.Body, true)
+		pos := loop.Pos()
+		if early != nil {
+			pos = early.Pos()
+		}
+		c.Check(early == nil, rule, "updateHeads:every-link-examined", pos, "the loop over the block's links runs to its end",
+			"the loop over the block's links is left early: for a commit with two parents the second one is never examined, so a parent that is still a current head stays in the head set next to its child")
+	}
 	// Replace = delete old + write new, both errors returned
 	if rp := c.Anchor(rule, "internal/core/block.(*heads).Replace"); rp != nil {
 		ri := rp.Pkg.TypesInfo
